@@ -127,6 +127,9 @@ def plans(prop, tier):
             P.append((k, False, 'exc', 0, ('pause',)))
             P.append((k, True, 'ret', 2, ('pause',)))
             P.append((k, False, 'slowfin', 0, ('pause',), None, 'slowfin'))     # a finally block that needs 1.5 s of the timeout
+            if k != 'thread':
+                P.append((k, True, 'ret', 2, ('pause',), None, 'slowarg'))      # landing while the child rebuilds an argument (user code)
+        P.append(('thread', False, 'ret', 0, ('term_after_finish',), None, None))
     elif prop == 'C06':
         for k in kinds:
             for items in ((0, 2) if tier == 'quick' else (0, 1, 2, 3, 5)):
@@ -191,6 +194,8 @@ def run(prop, tier, replay=None):
         for bc in base_cases:
             if bc['observe'] == 'slowfin':
                 bc['observe'] = None
+            if bc['observe'] == 'slowarg':
+                bc.update(observe=None, slowarg=True)
             if bc['observe'] == 'restart':
                 bc.update(observe=None, restart_chain=2)
             if bc['observe'] == 'us_none':
@@ -211,6 +216,12 @@ def run(prop, tier, replay=None):
                 if cons and tier == 'quick':
                     pts = pts[::2]
                 extra = {}
+                if f == 'term_after_finish':
+                    pts = [0]
+                if obsmode == 'slowarg':
+                    extra = {'slowarg': True}
+                    pts = [i for i, ev_ in enumerate(events, 1) if ev_[0] == 'targets.py' and ev_[1] == '__setstate__']
+                    pts = pts[::2] if tier == 'quick' else pts
                 if obsmode == 'slowfin':
                     # land inside the try body of the target; the caller grants 6 s (4 s on the remote side)
                     from ..lifeharness import target_region
@@ -282,7 +293,7 @@ def _strip(r):
                                        'has_finally', 'target_started', 'target_finished', 'items')},
             'obs': {'dead_observed': o['dead_observed'], 'term_ret': o['term_ret'], 'reads': reads, 'fin_done': o['fin_done'],
                     'us_alive': o['us_alive'] if o['us_alive'] in ('init', 'na') else 'changed', 'us_end': o['us_end'],
-                    'linger': o.get('linger', 'na'), 'restart_from': o.get('restart_from', 'na'),
+                    'linger': o.get('linger', 'na'), 'restart_from': o.get('restart_from', 'na'), 'bystander': o.get('bystander', 'na'),
                     'setter': o['setter'], 'stream': {'got': o['stream']['got'], 'end': o['stream']['end'], 'again': o['stream'].get('again', 'na')}}}
 
 
